@@ -38,6 +38,7 @@ func checkC10(w *World, r *Report) {
 	r.Explanation = "Decides one necessary condition of block substitution that is visible in the shape of the code, for every template set: (R10.1) wherever the renderer decides which definition of a block to use by looking it up in a name → body map, the decision is taken on membership (comma-ok) and never on the emptiness or nil-ness of the body, so an override with an empty body is honoured like any other; (R10.2) ExtendsNode.Render copies both the blocks and the parentBlocks map of the child context into the parent's context on every path before the parent renders. (R10.3) parent() renders inherited bodies with the caller's effective block table; (R10.4) a block's own body is rendered only after the effective block table was consulted, in every kind of render; (R10.5) ExtendsNode reaches a successful return only through Engine.Load. Not decided: which definition wins along chains of three or more templates, parent() chains, nested blocks (substitution semantics over data, not a code shape)."
 	r.Explanation += " Rules added in later rounds: (R10.6) parent() renders the inherited body now; (R10.7) the hand-over of the writer to the extends node shares no path with any other use of the writer. (R10.8) structural nodes render their bodies in the context they were given; (R10.9) a root node's block registration is not held back by presence alone. (R10.10) the search for the extends tag visits every node."
 	r.Explanation += " Round 9: (R10.11) re-entrant functions do not bracket nested work with constants in shared state; (R10.12) the parser does not filter node lists by what the nodes are."
+	r.Explanation += " Round 10: (R10.13) the print tag writes the whole converted value."
 	r.RuleText = "obligation = one lookup in a block-body map whose result reaches a branch condition (R10.1), one map hand-over (R10.2); non-trivial = all"
 	r.Trusted = []string{"go/types resolution of map element types"}
 
